@@ -1,9 +1,12 @@
 import CarModel.Driver.Scan
 import CarModel.Driver.Idx
+import CarModel.Driver.Ops
+import CarModel.Driver.Read
 namespace Car.Driver
 
 structure DState where
   tbl : HashTable := []
+  sess : Option Sess := none
 
 /-- One script line → (new state, "M …" text, "S …" text). Unknown family → `bad-op`. -/
 def step (st : DState) (line : String) : DState × String × String :=
@@ -16,6 +19,19 @@ def step (st : DState) (line : String) : DState × String × String :=
     if fam == "hash" then
       ({ st with tbl := (KV.nat kv "code", KV.bytes kv "data", KV.bytes kv "digest") :: st.tbl }, "skip", "")
     else if fam == "reset" then ({ tbl := [] }, "skip", "")
+    else if fam == "open" then let r := famOpen kv; ({ st with sess := some r.1 }, r.2.1, r.2.2)
+    else if fam == "fcheck" then
+      match st.sess with
+      | none => (st, "bad-op", "")
+      | some se => let r := famFcheck H se; (st, r.1, r.2)
+    else if fam == "read" then
+      match st.sess with
+      | none => (st, "bad-op", "")
+      | some se => let r := famRead H se kv; (st, r.1, r.2)
+    else if ["put", "many", "has", "get", "size", "keys", "roots", "finalize", "finro", "close", "discard", "file"].contains fam then
+      match st.sess with
+      | none => (st, "bad-op", "")
+      | some se => let r := famOp se fam kv; ({ st with sess := some r.1 }, r.2.1, r.2.2)
     else if fam == "scan" then let r := famScan H kv; (st, r.1, r.2)
     else if fam == "mut" then let r := famMut H kv; (st, r.1, r.2)
     else if fam == "idx" then let r := famIdx kv; (st, r.1, r.2)
